@@ -10,6 +10,7 @@
 
 #include <sched.h>
 #include <sys/personality.h>
+#include <sys/wait.h>
 #include <time.h>
 #include <unistd.h>
 
@@ -195,6 +196,7 @@ int main(int argc, char** argv)
         }
     }
     bool search = false;
+    bool fork_each = false;
     const char* replay = nullptr;
     const char* trace = nullptr;
     const char* hashes = nullptr;
@@ -214,6 +216,8 @@ int main(int argc, char** argv)
         };
         if (a == "--search")
             search = true;
+        else if (a == "--fork-each")
+            fork_each = true;
         else if (a == "--replay")
             replay = next();
         else if (a == "--trace")
@@ -351,12 +355,67 @@ int main(int argc, char** argv)
     uint64_t base = mix64(verif_seed * 0x9E3779B97F4A7C15ull ^ str_hash(w->name) ^
                           mix64(str_hash(params_key.c_str())));
     std::vector<std::string> samples;
+    std::map<std::string, uint64_t> fork_probes;
+    uint64_t fork_faults[16] = {0};
     for (uint64_t i = 0; i < count; i++) {
         uint64_t idx = from + i * stride + offset;
         if (time_ms > 0 && (i & 63) == 0 && (now_s() - t0) * 1000 > time_ms) break;
         gsim_ctl::set_meta(verif_seed, idx);
-        gsim_ctl::run_search(w, mix64(base + idx * 0xD1B54A32D192ED03ull));
-        const auto& st = gsim_ctl::last_stats();
+        gsim_ctl::RunStats forked_st;
+        if (fork_each) {
+            // process-wide state (static trip lines) makes runs order dependent:
+            // every run gets a fresh child of this still single-threaded process
+            int pfd[2];
+            if (pipe(pfd) != 0) return 2;
+            fflush(stdout);
+            pid_t pid = fork();
+            if (pid == 0) {
+                close(pfd[0]);
+                gsim_ctl::run_search(w, mix64(base + idx * 0xD1B54A32D192ED03ull));
+                gsim_ctl::RunStats cs = gsim_ctl::last_stats();
+                uint64_t extra[16] = {0};
+                for (int d = 1; d < 8; d++) extra[d] = gsim_ctl::fault_fired(d);
+                if (write(pfd[1], &cs, sizeof cs) != (ssize_t)sizeof cs) _exit(2);
+                if (write(pfd[1], extra, sizeof extra) != (ssize_t)sizeof extra) _exit(2);
+                int np = gsim_ctl::probe_count();
+                if (write(pfd[1], &np, sizeof np) != (ssize_t)sizeof np) _exit(2);
+                for (int p = 0; p < np; p++) {
+                    char nm[64] = {0};
+                    snprintf(nm, sizeof nm, "%s", gsim_ctl::probe_name(p));
+                    uint64_t v = gsim_ctl::probe_value(p);
+                    if (write(pfd[1], nm, sizeof nm) != (ssize_t)sizeof nm) _exit(2);
+                    if (write(pfd[1], &v, sizeof v) != (ssize_t)sizeof v) _exit(2);
+                }
+                _exit(0);
+            }
+            close(pfd[1]);
+            uint64_t extra[16];
+            bool ok = read(pfd[0], &forked_st, sizeof forked_st) == (ssize_t)sizeof forked_st &&
+                read(pfd[0], extra, sizeof extra) == (ssize_t)sizeof extra;
+            int np = 0;
+            if (ok) ok = read(pfd[0], &np, sizeof np) == (ssize_t)sizeof np;
+            for (int p = 0; ok && p < np; p++) {
+                char nm[64];
+                uint64_t v = 0;
+                ok = read(pfd[0], nm, sizeof nm) == (ssize_t)sizeof nm &&
+                    read(pfd[0], &v, sizeof v) == (ssize_t)sizeof v;
+                if (ok) fork_probes[nm] += v;
+            }
+            close(pfd[0]);
+            int wst = 0;
+            waitpid(pid, &wst, 0);
+            int code = WIFEXITED(wst) ? WEXITSTATUS(wst) : 2;
+            if (code == 3) return 3;  // the child printed the FAIL line and wrote the replay file
+            if (code != 0 || !ok) {
+                fprintf(stderr, "gsim: forked run %llu ended with status %d\n",
+                        (unsigned long long)idx, code);
+                return 2;
+            }
+            for (int d = 1; d < 8; d++) fork_faults[d] += extra[d];
+        } else {
+            gsim_ctl::run_search(w, mix64(base + idx * 0xD1B54A32D192ED03ull));
+        }
+        const auto& st = fork_each ? forked_st : gsim_ctl::last_stats();
         if (print_runs)
             printf("RUN %llu %016llx %llu\n", (unsigned long long)idx,
                    (unsigned long long)st.event_hash, (unsigned long long)st.steps);
@@ -374,7 +433,7 @@ int main(int argc, char** argv)
             if ((int)samples.size() < nsamples && (i % 97) == 13 % 97) {
             }
         }
-        if ((int)samples.size() < nsamples && st.preemptions > 0 &&
+        if (!fork_each && (int)samples.size() < nsamples && st.preemptions > 0 &&
             (samples.empty() || i > count / 2)) {
             char* buf = nullptr;
             size_t len = 0;
@@ -416,11 +475,18 @@ int main(int argc, char** argv)
     printf("},\"faults\":{");
     for (int d = 1; d < 8; d++)
         printf("%s\"%s\":%llu", d > 1 ? "," : "", gsim_ctl::dkind_name(d),
-               (unsigned long long)gsim_ctl::fault_fired(d));
+               (unsigned long long)(fork_each ? fork_faults[d] : gsim_ctl::fault_fired(d)));
     printf("},\"probes\":{");
-    for (int p = 0; p < gsim_ctl::probe_count(); p++)
-        printf("%s\"%s\":%llu", p ? "," : "", gsim_ctl::probe_name(p),
-               (unsigned long long)gsim_ctl::probe_value(p));
+    if (fork_each) {
+        bool f1 = true;
+        for (auto& kv : fork_probes) {
+            printf("%s\"%s\":%llu", f1 ? "" : ",", kv.first.c_str(), (unsigned long long)kv.second);
+            f1 = false;
+        }
+    } else
+        for (int p = 0; p < gsim_ctl::probe_count(); p++)
+            printf("%s\"%s\":%llu", p ? "," : "", gsim_ctl::probe_name(p),
+                   (unsigned long long)gsim_ctl::probe_value(p));
     printf("},\"samples\":[");
     for (size_t s = 0; s < samples.size(); s++) printf("%s%s", s ? "," : "", samples[s].c_str());
     printf("]}\n");
